@@ -174,6 +174,31 @@ func (n *jnode) pathName(p jpath) string {
 }
 
 // Mutation: a named edit applied to a clone of the tree.
+// mutationCorpus: object nodes harvested from other base documents (set by the checks that have several seeds), so
+// that a member seen in one seed can be added to the same-shaped object of another.
+var mutationCorpus []*jnode
+
+func objectsOf(root *jnode) []*jnode {
+	var out []*jnode
+	for _, p := range root.paths() {
+		if n := root.at(p); n.K == jObj {
+			out = append(out, n)
+		}
+	}
+	return out
+}
+
+// setMutationCorpus harvests the object nodes of the given documents (idempotent; call before SingleMutations).
+func setMutationCorpus(docs []string) {
+	var out []*jnode
+	for _, d := range docs {
+		if t, err := jparse(d); err == nil {
+			out = append(out, objectsOf(t)...)
+		}
+	}
+	mutationCorpus = out
+}
+
 type Mutation struct {
 	Name  string
 	Path  jpath
@@ -342,6 +367,68 @@ func SingleMutations(root *jnode, typeURLs, enumNames []string) []Mutation {
 					o.Keys = append(o.Keys, sib.k)
 					o.Kids = append(o.Kids, sib.v.clone())
 				}})
+			}
+		}
+		if cur.K == jObj {
+			// KNOWN siblings: members that objects of the same shape carry elsewhere (in this document or in the
+			// corpus): the other member of a oneof next to the one present, an optional field that was absent; and the
+			// second JSON name (camelCase <-> snake_case) of a member already present, with the same and with another
+			// value. Decoders that collect members into a map decide such documents by map order or by a fixed
+			// preference — either way the module must give ONE answer.
+			have := map[string]bool{}
+			for _, k := range cur.Keys {
+				have[k] = true
+			}
+			seen := map[string]bool{}
+			addMember := func(tag, k string, v *jnode) {
+				id := k + "=" + v.String()
+				if seen[id] {
+					return
+				}
+				seen[id] = true
+				v = v.clone()
+				out = append(out, Mutation{Name: root.pathName(p) + " +" + tag + " " + jstr(k) + ":" + trunc(v.String(), 60), Path: p, Apply: func(r *jnode) {
+					o := r.at(p)
+					o.Keys = append(o.Keys, k)
+					o.Kids = append(o.Kids, v.clone())
+				}})
+			}
+			for _, o := range append(objectsOf(root), mutationCorpus...) {
+				if o == cur {
+					continue
+				}
+				shares := false
+				for _, k := range o.Keys {
+					if have[k] && k != "@type" && k != "value" {
+						shares = true
+						break
+					}
+				}
+				if !shares {
+					continue
+				}
+				for i, k := range o.Keys {
+					if !have[k] {
+						addMember("known-member", k, o.Kids[i])
+					}
+				}
+			}
+			for i, k := range cur.Keys {
+				alias := toCamel(k)
+				if alias == k {
+					alias = toSnake(k)
+				}
+				if alias == k || have[alias] {
+					continue
+				}
+				addMember("alias-same-value", alias, cur.Kids[i])
+				for _, o := range append(objectsOf(root), mutationCorpus...) {
+					for j, ok := range o.Keys {
+						if ok == k && o.Kids[j].String() != cur.Kids[i].String() {
+							addMember("alias-other-value", alias, o.Kids[j])
+						}
+					}
+				}
 			}
 		}
 		if cur.K == jArr {
